@@ -101,5 +101,44 @@ int main(int argc, char **argv)
         Ev("writehmac").i("id", id++).i("alg", alg).b("key", key).i("hashMark", 48).i("writeMark", 10).b("before", f2).b("after", after).emit();
       }
     }
+  // start positions beyond one byte / two bytes of offset: "[pos, EOF)" for every pos, not only header-sized ones
+  for (int alg = 0; alg < 3; ++alg)
+    for (long pos : {255L, 256L, 257L, 300L, 1000L, 4103L, 65539L})
+    {
+      if (pos > 60000 && maxlen < 100)
+        continue;
+      auto key = rng.bytes(16);
+      std::vector<u8_t> file = rng.bytes(pos);
+      auto m = wv_content(rng, 30 + alg, 1);
+      file.insert(file.end(), m.begin(), m.end());
+      FILE *f = wv_memfile(file);
+      fseek(f, pos, SEEK_SET);
+      hmac h;
+      u8_t out[64];
+      memset(out, 0xAA, sizeof out);
+      h.gethmac(alg, key.data(), f, out);
+      int hl = h.get_length();
+      Ev("gethmac").i("id", id++).i("alg", alg).b("key", key).i("pos", pos).b("file", file).i("hlen", hl).b("out", out, 64).emit();
+      fclose(f);
+      // the tag of the message that starts at pos % 256 (or pos % 65536) must NOT be accepted
+      for (long wrong : {pos % 256, pos % 65536})
+      {
+        if (wrong == pos)
+          continue;
+        u8_t other[64];
+        memset(other, 0, sizeof other);
+        FILE *g = wv_memfile(file);
+        fseek(g, wrong, SEEK_SET);
+        hmac h1;
+        h1.gethmac(alg, key.data(), g, other);
+        fclose(g);
+        FILE *g2 = wv_memfile(file);
+        fseek(g2, pos, SEEK_SET);
+        hmac h2;
+        bool r = h2.cmphmac(alg, key.data(), g2, other);
+        fclose(g2);
+        Ev("cmphmac").i("id", id++).i("alg", alg).b("key", key).i("pos", pos).b("file", file).b("given", other, 64).i("res", r ? 1 : 0).emit();
+      }
+    }
   return 0;
 }
